@@ -14,8 +14,9 @@ the checked slice `rest[0:n]` of the suffix after the length byte — the same b
 
 `build` is the loop of `NewFieldsFromKVString` over the result of `kvstring.SplitString`. The splitting itself,
 `kvstring.TrimSpaces` and `strconv.Unquote` are owned by C08 and enter as parameters (`parts`, `trim`, `unq`).
-The model keeps the order of the code: the length test `len(v) > 255` comes **before** trimming and unquoting, and
-the length byte is `byte(len(v))` of the *unquoted* value (wrapping modulo 256).
+The model keeps the order of the code: the length test `len(v) > 255` comes before trimming and unquoting, it is repeated
+on the unquoted value when the regenerated fact `fieldLenTestedAfterUnquote` says so (commit 72eac47), and the length
+byte is `byte(len(v))` of the unquoted value (wrapping modulo 256).
 -/
 namespace Logrange.WireFields
 open Go Logrange
@@ -84,16 +85,29 @@ def buildGo (trim : Bytes → Bytes) (unq : Bytes → Option Bytes) : List Bytes
       if v.length = 0 ∧ i % 2 = 0 then none
       else
         let v' := match v with
-          | c :: _ => if c = 34 ∨ c = 96 then unq v else some v
+          | c :: _ =>
+            if c = 34 ∨ c = 96 then
+              match unq v with
+              | none => none
+              | some u =>
+                -- commit 72eac47: `if len(v) > 255 { error }` again, on the unquoted value
+                if Generated.C13.fieldLenTestedAfterUnquote = true ∧ u.length > Generated.C13.fieldMaxLenAfterUnquote then none
+                else some u
+            else some v
           | [] => some v
         match v' with
         | none => none
-        | some v =>
-          if Generated.C13.fieldLenTestedAfterUnquote = true ∧ v.length > Generated.C13.fieldMaxLen then none
-          else buildGo trim unq rest (i + 1) (sb ++ UInt8.ofNat v.length :: v)   -- byte(len(v)), then v
+        | some v => buildGo trim unq rest (i + 1) (sb ++ UInt8.ofNat v.length :: v)   -- byte(len(v)), then v
 
 /-- `NewFieldsFromKVString` after `SplitString` returned `parts` -/
 def build (trim : Bytes → Bytes) (unq : Bytes → Option Bytes) (parts : List Bytes) : Option Bytes :=
   if parts.length % 2 = 1 then none else buildGo trim unq parts 0 []
+
+/-- `NewFieldsFromKVString`: `split` stands for `RemoveCurlyBraces` + `SplitString` (`none` = error, `some []` for an empty
+text — the two early `return "", nil`) -/
+def fromKV (split : Bytes → Option (List Bytes)) (trim : Bytes → Bytes) (unq : Bytes → Option Bytes) (kvs : Bytes) : Option Bytes :=
+  match split kvs with
+  | none => none
+  | some parts => build trim unq parts
 
 end Logrange.WireFields
